@@ -133,6 +133,9 @@ imb_aes_gmac_update_256_vaes_avx512:
         clear_zmms_avx512 xmm1, xmm0
 %endif
 .exit_gmac_update:
+%ifdef SAFE_DATA
+        clear_all_zmms_asm
+%endif
         FUNC_RESTORE
 	ret
 
